@@ -489,6 +489,20 @@ func prepareCall(fr *frame, call *ssa.CallCommon) (fn value, args []value) {
 	} else {
 		recv := v.(iface)
 		if recv.t == nil {
+			if call.Method.Pkg() != nil && isZeroPkgPath(call.Method.Pkg().Path()) {
+				// objects of logging/metrics/tracing packages are never created (their constructors are
+				// no-op stubs), so methods invoked through their interfaces are no-ops as well
+				res := call.Signature().Results()
+				name := call.Method.FullName()
+				w := fr.i.run.w
+				return &nativeFunc{name: name, f: func(fr *frame, args []value) value {
+					w.noteStub(name + " (no-op on absent object)")
+					if res.Len() == 0 {
+						return nil
+					}
+					return zero(res)
+				}}, nil
+			}
 			panic(fr.i.run.runtimePanic("invalid memory address or nil pointer dereference (method on nil interface)"))
 		}
 		if f := lookupMethod(fr.i, recv.t, call.Method); f == nil {
